@@ -594,7 +594,8 @@ class TLSConnection(TLSRecordLayer):
         # If the server elected to resume the session, it is handled here.
         for result in self._clientResume(session, serverHello,
                         clientHello.random,
-                        nextProto, settings):
+                        nextProto, settings,
+                        clientHello.session_id):
             if result in (0, 1): yield result
             else: break
 
@@ -883,6 +884,12 @@ class TLSConnection(TLSRecordLayer):
             extensions = None
 
         sent_version = min(settings.maxVersion, (3, 3))
+
+        # when a session ticket is offered, send a session_id too: a server
+        # that accepts the ticket has to echo it (RFC 5077, section 3.4), that
+        # is the only way to tell resumption from a full handshake
+        if session and session.tls_1_0_tickets and not session_id:
+            session_id = getRandomBytes(32)
 
         # Either send ClientHello (with a resumable session)...
         if session and session.sessionID:
@@ -1790,11 +1797,14 @@ class TLSConnection(TLSRecordLayer):
         return None
 
     def _clientResume(self, session, serverHello, clientRandom,
-                      nextProto, settings):
+                      nextProto, settings, sent_session_id=None):
 
+        # the session is resumed if the server echoed the session_id we sent
+        # (the one of the session, or the one sent together with a ticket)
         if session and ((session.sessionID and \
             serverHello.session_id == session.sessionID) or
-            session.tls_1_0_tickets):
+            (session.tls_1_0_tickets and sent_session_id and
+             serverHello.session_id == sent_session_id)):
 
             if serverHello.cipher_suite != session.cipherSuite:
                 for result in self._sendError(\
